@@ -23,6 +23,7 @@ LEVEL_TEXT = ('static: path rules on NoteEvent.play (send count, stamping, id so
 LEVEL_NOTE = 'reference precedence from DESIGN appendix A.7'
 LEVEL_TEXT_ADD = ' Also: loop-carried sums never fed from a rounding call (C14.accum), Ppar local-clock / bridging-rest / rest-delta clauses, Pdur event conversion, scale and tuning objects reach the pitch chain unchanged.'
 LEVEL_TEXT_ADD += ' Rounds e-f: pitch chain steps, steps per octave = 12 * log2(ratio), Pdur remainder not floored.'
+LEVEL_TEXT_ADD += ' Rounds g-h: detuned frequency applied once (stored under freq or converted back), Pdur padding rest not stretched again.'
 LEVEL_TEXT = (globals().get('LEVEL_TEXT') or EXPLANATION) + LEVEL_TEXT_ADD
 TECHNIQUE = 'static analysis: path enumeration on play(), decision-table extraction of key functions, contract-agreement lints'
 
